@@ -1148,6 +1148,105 @@ def check(ctx):
         ok_ = (mv == real) if op == "antithetic" else close_arr(real, mv, 1e-9, 1e-12)
         if not ok_:
             ctx.disagree(op, case, real, mv)
+    # EXTREME ADMISSIBLE REGIMES of the variance processes (deterministic corpus, every tier): psi = s^2 / m^2 of Andersen's QE scheme so large
+    # that p = (psi - 1) / (psi + 1) rounds to 1 (sigma^2 / (2 kappa theta) above ~3e7: slow reversion to a tiny long-run variance with high
+    # vol-of-vol), tiny theta, small kappa, zero / tiny / default initial variance, dt from 1/250 to 10, both dtypes, the four entry points
+    # generate_cir, CIRRate, generate_heston, HestonStock: finite (paths, steps) series of the requested dtype starting at the requested state,
+    # variance >= 0, price > 0 or 0 only next to an underflow, volatility == sqrt(variance).  theta > 0 and kappa * dt >= 4e-7 (below the
+    # resolution of the dtype 1 - exp(-kappa dt) is 0 and the scheme is degenerate, as for theta = 0).
+    XREG = [(1e-3, 1e-4, 3.0), (1.0, 1e-8, 1.0), (1e-4, 1e-10, 2.0), (1.0, 1e-12, 0.5), (5.0, 1e-6, 10.0), (0.5, 1e-30, 1.0), (1e-2, 1e-9, 4.0), (1.0, 0.04, 2.0)]
+    XV0 = [None, 0.0, 1e-12, 1e-4, 1e-30]
+    XDT = [1 / 250, 1.0, 10.0]
+
+    def extreme_ok(series, N_, n_, want, state, price, dt_):
+        """None or the name of the broken clause"""
+        for k, t in series.items():
+            if tuple(t.shape) != (N_, n_) or t.dtype != want:
+                return "shape-dtype"
+            if not bool(t.isfinite().all()):
+                return "nonfinite"
+        for bn, w in state.items():
+            if not bool((series[bn][:, 0] == torch.tensor(float(w), dtype=want)).all()):
+                return "first-column"
+        var = series["variance" if price else "spot"]
+        if not bool((var >= 0).all()):
+            return "variance-negative"
+        if price and bool((series["spot"] < 0).any()):
+            return "price-negative"
+        if price and bool(((series["spot"] == 0).any(dim=1) & (series["variance"].sum(dim=1) * dt_ < 20.0)).any()):
+            return "price-zero"       # a zero on a path whose integrated variance is far too small for exp() to underflow
+        if "volatility" in series and not torch.equal(series["volatility"], series["variance"].clamp(min=0.0).sqrt()):
+            return "volatility"
+        return None
+
+    xi_ = 0
+    for dname in ("float32", "float64"):
+        want = getattr(torch, dname)
+        for (kap, th, sg) in XREG:
+            for v0 in XV0:
+                for dt in XDT:
+                    if kap * dt < 4e-7:
+                        continue
+                    xi_ += 1
+                    if ctx.tier == "quick" and v0 not in (None, 1e-4) and (xi_ % 3):
+                        continue
+                    N_, n_ = g.choice([16, 48]), g.choice([8, 14])
+                    seed = g.randint(0, 10 ** 6)
+                    v0q = th if v0 is None else v0
+                    for entry in ("generate_cir", "CIRRate", "generate_heston", "HestonStock"):
+                        case = {"extreme": entry, "kappa": kap, "theta": th, "sigma": sg, "v0": v0, "dt": dt, "N": N_, "n": n_, "dtype": dname, "seed": seed}
+                        ctx.case(case, True, tag="extreme-regime")
+                        torch.manual_seed(seed)
+                        try:
+                            if entry == "generate_cir":
+                                ser = {"spot": S.generate_cir(N_, n_, init_state=None if v0 is None else (v0,), kappa=kap, theta=th, sigma=sg, dt=dt, dtype=want)}
+                                state = {"spot": v0q}
+                            elif entry == "CIRRate":
+                                ins = I.CIRRate(kappa=kap, theta=th, sigma=sg, dt=dt, dtype=want)
+                                ins.simulate(n_paths=N_, time_horizon=(n_ - 1) * dt, init_state=None if v0 is None else (v0,))
+                                ser, state = {"spot": ins.spot}, {"spot": v0q}
+                            elif entry == "generate_heston":
+                                o = S.generate_heston(N_, n_, init_state=None if v0 is None else (100.0, v0), kappa=kap, theta=th, sigma=sg, rho=-0.7, dt=dt, dtype=want)
+                                ser = {"spot": o.spot, "variance": o.variance, "volatility": o.volatility}
+                                state = {"variance": v0q, "spot": 1.0 if v0 is None else 100.0}
+                            else:
+                                ins = I.HestonStock(kappa=kap, theta=th, sigma=sg, rho=-0.7, dt=dt, dtype=want)
+                                ins.simulate(n_paths=N_, time_horizon=(n_ - 1) * dt, init_state=None if v0 is None else (100.0, v0))
+                                ser = {"spot": ins.spot, "variance": ins.variance, "volatility": ins.volatility}
+                                state = {"variance": v0q, "spot": 1.0 if v0 is None else 100.0}
+                        except InternalError:
+                            raise
+                        except Exception as e:  # noqa
+                            ctx.fail("a variance-process generator / instrument raised in an extreme admissible parameter regime", case,
+                                     key=f"extreme-regime:{entry}:error", detail=repr(e)[:200])
+                            continue
+                        if tuple(ser["spot"].shape) != (N_, n_) and entry in ("CIRRate", "HestonStock") and ser["spot"].shape[0] == N_ and abs(ser["spot"].shape[1] - n_) <= 1:
+                            n_eff = ser["spot"].shape[1]      # (n - 1) * dt / dt in floating point: the ceil rule is checked elsewhere
+                        else:
+                            n_eff = n_
+                        bad = extreme_ok(ser, N_, n_eff, want, state, entry in ("generate_heston", "HestonStock"), dt)
+                        if bad:
+                            k0 = "variance" if "variance" in ser else "spot"
+                            ctx.fail("in an extreme admissible parameter regime (huge psi / tiny theta / small kappa / zero or tiny initial variance / large dt) "
+                                     "a series is not well-formed: " + bad, case, key=f"extreme-regime:{entry}:{bad}",
+                                     detail={k0 + "[0]": [float(x) for x in ser[k0][0].tolist()][:6], "nonfinite": {k: int((~t.isfinite()).sum()) for k, t in ser.items()}})
+    # K11: mean reversion so slow that kappa * dt is below the resolution of the dtype (exp(-kappa dt) rounds to 1): recorded finding
+    rng_k11 = torch.get_rng_state()
+    try:
+        for kap_, th_, sg_, dt_ in ((1e-8, 0.04, 1.0, 1 / 250), (1e-6, 1e-6, 5.0, 1 / 250)):
+            torch.manual_seed(1)
+            c11 = {"entry": "generate_cir", "kappa": kap_, "theta": th_, "sigma": sg_, "dt": dt_, "dtype": "float32", "n_paths": 4, "n_steps": 5, "torch_seed": 1}
+            ctx.case(c11, True, tag="kappa-dt-underflow")
+            try:
+                o = S.generate_cir(4, 5, kappa=kap_, theta=th_, sigma=sg_, dt=dt_, dtype=torch.float32)
+            except Exception as e:  # noqa
+                ctx.fail("generate_cir raises for a tiny positive mean-reversion speed", c11, key="extreme-regime:generate_cir:kappa-dt-underflow", detail=repr(e)[:200])
+                continue
+            if not bool(o.isfinite().all()) or bool((o < 0).any()):
+                ctx.fail("generate_cir returns non-finite or negative values when kappa * dt is below the resolution of the dtype", c11,
+                         key="extreme-regime:generate_cir:kappa-dt-underflow", detail={"row0": [float(x) for x in o[0].tolist()]})
+    finally:
+        torch.set_rng_state(rng_k11)
     # the named tuples returned by the stochastic-volatility generators: volatility = sqrt(max(variance, 0))
     for it in range(10 if ctx.tier == "quick" else 100):
         N, n_ = g.choice([1, 3]), g.choice([1, 2, 6])
